@@ -52,11 +52,16 @@ func ToDateTime64(t time.Time, p Precision) DateTime64 {
 	if t.IsZero() {
 		return 0
 	}
-	return DateTime64(t.UnixNano() / p.Scale())
+	// Not using t.UnixNano(): it overflows outside of 1678..2262, while
+	// DateTime64 with precision below 9 covers 1900..2299.
+	scale := p.Scale()           // nanoseconds in one tick
+	perSec := int64(1e9) / scale // ticks in one second
+	return DateTime64(t.Unix()*perSec + int64(t.Nanosecond())/scale)
 }
 
 // Time returns DateTime64 as time.Time.
 func (d DateTime64) Time(p Precision) time.Time {
-	nsec := int64(d) * p.Scale()
-	return time.Unix(nsec/1e9, nsec%1e9)
+	scale := p.Scale()           // nanoseconds in one tick
+	perSec := int64(1e9) / scale // ticks in one second
+	return time.Unix(int64(d)/perSec, (int64(d)%perSec)*scale)
 }
